@@ -85,4 +85,133 @@ theorem eg_value_simple {p q : Position} (m : MirrorPos p q) (e : EG) (he : Simp
     simp only [e2, k1, k2, hpte, hdist, cS PAWN (by decide) (by decide), cS KNIGHT (by decide) (by decide), cS BISHOP (by decide) (by decide),
       cS ROOK (by decide) (by decide), cS QUEEN (by decide) (by decide)]
 
+theorem mkPcv_sum (a1 a2 a3 a4 a5 d1 d2 d3 d4 d5 : Nat) (k1 : a1 < 16) (k2 : a2 < 16) (k3 : a3 < 16) (k4 : a4 < 16) (k5 : a5 < 16)
+    (k6 : d1 < 16) (k7 : d2 < 16) (k8 : d3 < 16) (k9 : d4 < 16) (k10 : d5 < 16) :
+    mkPcv [a1, a2, a3, a4, a5, d1, d2, d3, d4, d5] =
+      (a1 * 16 + a2 * 256 + a3 * 4096 + a4 * 65536 + a5 * 1048576) + 16777216 * (d1 * 16 + d2 * 256 + d3 * 4096 + d4 * 65536 + d5 * 1048576) := by
+  show (a1 <<< 4 ||| a2 <<< 8 ||| a3 <<< 12 ||| a4 <<< 16 ||| a5 <<< 20 ||| d1 <<< 28 ||| d2 <<< 32 ||| d3 <<< 36 ||| d4 <<< 40 ||| d5 <<< 44) = _
+  rw [pcv_sum _ _ _ _ _ _ _ _ _ _ k1 k2 k3 k4 k5 k6 k7 k8 k9 k10]
+  have e4 : (2:Nat) ^ 4 = 16 := rfl
+  have e8 : (2:Nat) ^ 8 = 256 := rfl
+  have e12 : (2:Nat) ^ 12 = 4096 := rfl
+  have e16 : (2:Nat) ^ 16 = 65536 := rfl
+  have e20 : (2:Nat) ^ 20 = 1048576 := rfl
+  have e28 : (2:Nat) ^ 28 = 268435456 := rfl
+  have e32 : (2:Nat) ^ 32 = 4294967296 := rfl
+  have e36 : (2:Nat) ^ 36 = 68719476736 := rfl
+  have e40 : (2:Nat) ^ 40 = 1099511627776 := rfl
+  have e44 : (2:Nat) ^ 44 = 17592186044416 := rfl
+  rw [e4, e8, e12, e16, e20, e28, e32, e36, e40, e44]; omega
+
+/-- reading the piece counts off a material signature: strong side has (w1..w5), weak side (b1..b5) of P, N, B, R, Q -/
+theorem pcv_decode (b : List Nat) (hc : CountsOK b) (w1 w2 w3 w4 w5 b1 b2 b3 b4 b5 : Nat)
+    (hw : w1 < 16 ∧ w2 < 16 ∧ w3 < 16 ∧ w4 < 16 ∧ w5 < 16 ∧ b1 < 16 ∧ b2 < 16 ∧ b3 < 16 ∧ b4 < 16 ∧ b5 < 16) (s : Nat) (hs : s ≤ 1)
+    (h : pcv b = sandbox s [w1, w2, w3, w4, w5, b1, b2, b3, b4, b5] [b1, b2, b3, b4, b5, w1, w2, w3, w4, w5]) :
+    (countOf b (mkPiece s PAWN) = w1 ∧ countOf b (mkPiece s KNIGHT) = w2 ∧ countOf b (mkPiece s BISHOP) = w3 ∧
+     countOf b (mkPiece s ROOK) = w4 ∧ countOf b (mkPiece s QUEEN) = w5) ∧
+    (countOf b (mkPiece (1 - s) PAWN) = b1 ∧ countOf b (mkPiece (1 - s) KNIGHT) = b2 ∧ countOf b (mkPiece (1 - s) BISHOP) = b3 ∧
+     countOf b (mkPiece (1 - s) ROOK) = b4 ∧ countOf b (mkPiece (1 - s) QUEEN) = b5) := by
+  have hh := pcv_halves b hc
+  obtain ⟨h1, h2, h3, h4, h5, h7, h8, h9, h10, h11⟩ := hc
+  obtain ⟨g1, g2, g3, g4, g5, g6, g7, g8, g9, g10⟩ := hw
+  have hs' : s = 0 ∨ s = 1 := by omega
+  unfold sandbox at h
+  rcases hs' with rfl | rfl
+  · simp only [↓reduceIte] at h
+    rw [mkPcv_sum _ _ _ _ _ _ _ _ _ _ g1 g2 g3 g4 g5 g6 g7 g8 g9 g10, hh] at h
+    refine ⟨⟨?_, ?_, ?_, ?_, ?_⟩, ⟨?_, ?_, ?_, ?_, ?_⟩⟩
+    · show countOf b 1 = w1; omega
+    · show countOf b 2 = w2; omega
+    · show countOf b 3 = w3; omega
+    · show countOf b 4 = w4; omega
+    · show countOf b 5 = w5; omega
+    · show countOf b 7 = b1; omega
+    · show countOf b 8 = b2; omega
+    · show countOf b 9 = b3; omega
+    · show countOf b 10 = b4; omega
+    · show countOf b 11 = b5; omega
+  · simp only [if_neg (show ¬ (1 : Nat) = 0 by decide)] at h
+    rw [mkPcv_sum _ _ _ _ _ _ _ _ _ _ g6 g7 g8 g9 g10 g1 g2 g3 g4 g5, hh] at h
+    refine ⟨⟨?_, ?_, ?_, ?_, ?_⟩, ⟨?_, ?_, ?_, ?_, ?_⟩⟩
+    · show countOf b 7 = w1; omega
+    · show countOf b 8 = w2; omega
+    · show countOf b 9 = w3; omega
+    · show countOf b 10 = w4; omega
+    · show countOf b 11 = w5; omega
+    · show countOf b 1 = b1; omega
+    · show countOf b 2 = b2; omega
+    · show countOf b 3 = b3; omega
+    · show countOf b 4 = b4; omega
+    · show countOf b 5 = b5; omega
+
+/-- the square of a piece that occurs exactly once (`piece_position(piece, 0)`), under the mirror -/
+theorem sq1_mirror {p q : Position} (m : MirrorPos p q) (c k : Nat) (hc : c ≤ 1) (hk1 : 1 ≤ k) (hk : k ≤ 6) (hone : countOf p.board (mkPiece c k) = 1) :
+    lsb ((BBs.of q).ck (1 - c) k) = flipV (lsb ((BBs.of p).ck c k)) ∧ lsb ((BBs.of p).ck c k) < 64 := by
+  have hqlen : q.board.length = 64 := by rw [m.hq]; exact mirrorBoard_length _
+  have hsingle : (BBs.of p).ck c k ≠ 0 ∧ moreThanOne ((BBs.of p).ck c k) = false := by
+    rw [ck_eq p c k hc hk]; exact single_of_count _ _ m.len hone
+  exact lsb_mirror_single (MirrorPos.ck_lt _ _ hc hk m.len) (MirrorPos.ck_lt _ _ (by omega) hk hqlen) (m.ck c k hc hk1 hk) hsingle.1 hsingle.2
+
+def parityFlipOK : Bool := (List.range 64).all fun x =>
+  decide ((rankOf (flipV x) + fileOf (flipV x)) % 2 = 1) == !decide ((rankOf x + fileOf x) % 2 = 1)
+theorem parityFlipOK_true : parityFlipOK = true := by decide +kernel
+def edgeFilesOK : Bool := mirB (fileBB 0 ||| fileBB 2 ||| fileBB 5 ||| fileBB 7) (fileBB 0 ||| fileBB 2 ||| fileBB 5 ||| fileBB 7)
+theorem edgeFilesOK_true : edgeFilesOK = true := by decide +kernel
+
+/-- the endgame values that read the kings and one single piece -/
+theorem eg_value_single {p q : Position} (m : MirrorPos p q) (s stm : Nat) (hs : s ≤ 1)
+    (ks kw : Nat) (hks : KingAt p.board s ks) (hkw : KingAt p.board (1 - s) kw) :
+    (countOf p.board (mkPiece (1 - s) KNIGHT) = 1 →
+      egStrongScore .KRKN (BBs.of q) q.board (1 - stm) (1 - s) = egStrongScore .KRKN (BBs.of p) p.board stm s) ∧
+    (countOf p.board (mkPiece s BISHOP) = 1 →
+      egStrongScore .KNBK (BBs.of q) q.board (1 - stm) (1 - s) = egStrongScore .KNBK (BBs.of p) p.board stm s) ∧
+    (countOf p.board (mkPiece (1 - s) PAWN) = 1 →
+      egStrongScore .KQKP (BBs.of q) q.board (1 - stm) (1 - s) = egStrongScore .KQKP (BBs.of p) p.board stm s ∧
+      egStrongScore .KRKP (BBs.of q) q.board (1 - stm) (1 - s) = egStrongScore .KRKP (BBs.of p) p.board stm s) := by
+  have hs1 : 1 - s ≤ 1 := by omega
+  have e2 : 1 - (1 - s) = s := by omega
+  have hqlen : q.board.length = 64 := by rw [m.hq]; exact mirrorBoard_length _
+  have k1 : kingSq q.board (1 - s) = flipV (kingSq p.board s) := by rw [m.hq]; exact (C13_king_mirror p.board m.len m.codes s ks hs hks).2
+  have k2 : kingSq q.board s = flipV (kingSq p.board (1 - s)) := by
+    have := (C13_king_mirror p.board m.len m.codes (1 - s) kw hs1 hkw).2
+    rw [e2, ← m.hq] at this; exact this
+  have hk1 : kingSq p.board s < 64 := by rw [kingSq_eq p.board s ks m.len hks]; exact hks.lt
+  have hk2 : kingSq p.board (1 - s) < 64 := by rw [kingSq_eq p.board (1 - s) kw m.len hkw]; exact hkw.lt
+  have n1 := C13_normSq_mirror _ s hk1 hs
+  have n2 := C13_normSq_mirror _ s hk2 hs
+  refine ⟨fun hone => ?_, fun hone => ?_, fun hone => ?_⟩
+  · obtain ⟨l1, l2⟩ := sq1_mirror m (1 - s) KNIGHT hs1 (by decide) (by decide) hone
+    rw [e2] at l1
+    unfold egStrongScore
+    simp only [e2, k2, l1, n2, C13_normSq_mirror _ s l2 hs]
+  · obtain ⟨l1, l2⟩ := sq1_mirror m s BISHOP hs (by decide) (by decide) hone
+    have hP := parityFlipOK_true
+    simp only [parityFlipOK, List.all_eq_true, List.mem_range, beq_iff_eq] at hP
+    have hpar := hP _ l2
+    unfold egStrongScore
+    simp only [e2, k2, l1]
+    by_cases hb : (rankOf (lsb ((BBs.of p).ck s BISHOP)) + fileOf (lsb ((BBs.of p).ck s BISHOP))) % 2 = 1
+    · have : ¬ ((rankOf (flipV (lsb ((BBs.of p).ck s BISHOP))) + fileOf (flipV (lsb ((BBs.of p).ck s BISHOP)))) % 2 = 1) := by
+        simpa [hb] using hpar
+      rw [if_pos hb, if_neg this]
+    · have : (rankOf (flipV (lsb ((BBs.of p).ck s BISHOP))) + fileOf (flipV (lsb ((BBs.of p).ck s BISHOP)))) % 2 = 1 := by
+        simpa [hb] using hpar
+      rw [if_neg hb, if_pos this, flipV_flipV _ hk2]
+  · obtain ⟨l1, l2⟩ := sq1_mirror m (1 - s) PAWN hs1 (by decide) (by decide) hone
+    rw [e2] at l1
+    have mwp : MirrorBB ((BBs.of p).ck (1 - s) PAWN) ((BBs.of q).ck s PAWN) := by
+      have := m.ck (1 - s) PAWN hs1 (by decide) (by decide); rw [e2] at this; exact this
+    have z := (mwp.and (mirB_sound edgeFilesOK_true)).eq_zero_iff (and_lt (MirrorPos.ck_lt _ _ hs1 (by decide) m.len))
+      (and_lt (MirrorPos.ck_lt _ _ hs (by decide) hqlen))
+    constructor
+    · unfold egStrongScore
+      simp only [e2, k1, k2, l1, n1, n2, C13_normSq_mirror _ s l2 hs]
+      by_cases hcond : rankOf (normSq (lsb ((BBs.of p).ck (1 - s) PAWN)) s) = 1 ∧
+          (BBs.of p).ck (1 - s) PAWN &&& (fileBB 0 ||| fileBB 2 ||| fileBB 5 ||| fileBB 7) ≠ 0 ∧
+          distance (normSq (kingSq p.board (1 - s)) s) (mkSquare 0 (fileOf (normSq (lsb ((BBs.of p).ck (1 - s) PAWN)) s))) ≤ 1
+      · rw [if_pos hcond, if_pos ⟨hcond.1, fun h0 => hcond.2.1 (z.1 h0), hcond.2.2⟩]
+      · rw [if_neg hcond, if_neg (fun h' => hcond ⟨h'.1, fun h0 => h'.2.1 (z.2 h0), h'.2.2⟩)]
+    · unfold egStrongScore
+      simp only [e2, k1, k2, l1, n1, n2, C13_normSq_mirror _ s l2 hs]
+
 end Chess
